@@ -131,6 +131,9 @@ theorem spec_isDI_eq (c : Nat) : RbModel.Spec.DI.isDI c = inRanges RbModel.Spec.
 /-- a slot with its cluster erased -/
 def eC (g : G) : G := { g with cluster := 0 }
 
+/-- every slot of `l'` is a slot of `l` up to its cluster -/
+def SubC0 (l l' : List G) : Prop := ∀ g' ∈ l', ∃ g ∈ l, eC g' = eC g
+
 @[simp] theorem eC_setCluster (c : Nat) (g : G) : eC (setCluster c g) = eC g := rfl
 
 theorem map_eC_map_setCluster (c : Nat) (l : List G) : (l.map (setCluster c)).map eC = l.map eC := by
@@ -146,54 +149,106 @@ theorem takeWhile_append_drop_length {α} (p : α → Bool) (l : List α) :
     · simp [ih]
     · simp
 
-theorem mergeSeg_eC (seg post : List G) : (mergeSeg seg post).map eC = (seg ++ post).map eC := by
+theorem mergeSeg_eC (pre seg post : List G) :
+    (mergeSeg pre seg post).1.map eC = pre.map eC ∧ (mergeSeg pre seg post).2.map eC = (seg ++ post).map eC := by
   unfold mergeSeg
   cases seg with
-  | nil => rfl
+  | nil => exact ⟨rfl, rfl⟩
   | cons g0 tl =>
-    simp only
-    split
-    · rw [List.map_append, map_eC_map_setCluster, List.map_append (f := eC), List.append_assoc,
-        ← List.map_append, takeWhile_append_drop_length, ← List.map_append]
-    · simp [List.map_map, Function.comp_def]
+    dsimp only
+    constructor
+    · rw [List.map_append, map_eC_map_setCluster, ← List.map_append, List.take_append_drop]
+    · split
+      · rw [List.map_append, map_eC_map_setCluster, List.map_append (f := eC), List.append_assoc,
+          ← List.map_append, takeWhile_append_drop_length, ← List.map_append]
+      · simp [List.map_map, Function.comp_def]
 
-theorem mergeClusters_eC (level : Nat) (seg post : List G) :
-    (mergeClusters level seg post).map eC = (seg ++ post).map eC := by
+theorem mergeClusters_eC (level : Nat) (pre seg post : List G) :
+    (mergeClusters level pre seg post).1.map eC = pre.map eC ∧
+    (mergeClusters level pre seg post).2.map eC = (seg ++ post).map eC := by
   unfold mergeClusters
   split
-  · rfl
+  · exact ⟨rfl, rfl⟩
   · split
-    · rfl
-    · exact mergeSeg_eC seg post
+    · exact ⟨rfl, rfl⟩
+    · exact mergeSeg_eC pre seg post
 
 theorem length_eq_of_map_eq {α β} {f : α → β} {a b : List α} (h : a.map f = b.map f) : a.length = b.length := by
   simpa using congrArg List.length h
 
-theorem graphemes_flatten_eC (merge : Bool) (level : Nat) (n : Nat) (l : List G) (hn : l.length ≤ n) :
-    ((graphemes merge level n l).flatten).map eC = l.map eC := by
-  induction n generalizing l with
-  | zero =>
-    cases l with
-    | nil => simp [graphemes]
-    | cons g tl => simp at hn
+/-- one step of `graphemeWalk`: the pieces, up to clusters -/
+theorem walk_step_eC (merge : Bool) (level : Nat) (done : List G) (g : G) (tl : List G) :
+    let seg := g :: tl.takeWhile G.cont
+    let post := tl.dropWhile G.cont
+    let r := if merge then mergeClusters level done seg post else (done, seg ++ post)
+    r.1.map eC = done.map eC ∧ (r.2.take seg.length).map eC = seg.map eC ∧
+      (r.2.drop seg.length).map eC = post.map eC := by
+  intro seg post r
+  have h : r.1.map eC = done.map eC ∧ r.2.map eC = (seg ++ post).map eC := by
+    show (if merge then mergeClusters level done seg post else (done, seg ++ post)).1.map eC = _ ∧
+      (if merge then mergeClusters level done seg post else (done, seg ++ post)).2.map eC = _
+    split
+    · exact mergeClusters_eC level done seg post
+    · exact ⟨rfl, rfl⟩
+  refine ⟨h.1, ?_, ?_⟩
+  · rw [List.map_take, h.2, ← List.map_take, List.take_left' rfl]
+  · rw [List.map_drop, h.2, ← List.map_drop, List.drop_left' rfl]
+
+/-- without the in-place reversal the walk only changes clusters -/
+theorem graphemeWalk_eC (merge : Bool) (level : Nat) (n : Nat) (done l : List G) :
+    (graphemeWalk merge level false n done l).map eC = (done ++ l).map eC := by
+  induction n generalizing done l with
+  | zero => rfl
   | succ n ih =>
     cases l with
-    | nil => simp [graphemes]
+    | nil => simp [graphemeWalk]
     | cons g tl =>
-      simp only [graphemes]
-      generalize hall : (if merge = true then mergeClusters level (g :: tl.takeWhile G.cont) (tl.dropWhile G.cont)
-        else g :: tl.takeWhile G.cont ++ tl.dropWhile G.cont) = all
-      have hallE : all.map eC = (g :: tl).map eC := by
-        rw [← hall]
-        split
-        · rw [mergeClusters_eC]; simp [List.takeWhile_append_dropWhile]
-        · simp [List.takeWhile_append_dropWhile]
-      have hlen : all.length = tl.length + 1 := by simpa using length_eq_of_map_eq hallE
-      rw [List.flatten_cons, List.map_append, ih _ (by
-        simp only [List.length_drop, List.length_cons]
-        simp at hn; omega)]
-      rw [← List.map_append, List.take_append_drop, hallE]
+      simp only [graphemeWalk, Bool.false_eq_true, if_false]
+      obtain ⟨h1, h2, h3⟩ := walk_step_eC merge level done g tl
+      rw [ih, List.map_append, List.map_append, h1, h2, h3, List.map_append, List.append_assoc,
+        ← List.map_append (f := eC) (l₁ := g :: tl.takeWhile G.cont)]
+      simp [List.takeWhile_append_dropWhile]
 
+/-- with or without it, every slot of the result is a slot of the input up to its cluster -/
+theorem graphemeWalk_subC (merge : Bool) (level : Nat) (rev : Bool) (n : Nat) (done l : List G) :
+    SubC0 (done ++ l) (graphemeWalk merge level rev n done l) := by
+  induction n generalizing done l with
+  | zero => intro g hg; exact ⟨g, hg, rfl⟩
+  | succ n ih =>
+    cases l with
+    | nil => intro g hg; simp only [graphemeWalk] at hg; exact ⟨g, by simpa using hg, rfl⟩
+    | cons g tl =>
+      simp only [graphemeWalk]
+      obtain ⟨h1, h2, h3⟩ := walk_step_eC merge level done g tl
+      intro x hx
+      obtain ⟨y, hy, hxy⟩ := ih _ _ x hx
+      -- y is in the new done, the (possibly reversed) new segment, or the new rest
+      have hsrc : ∀ z : G, (∃ w ∈ done, eC z = eC w) ∨ (∃ w ∈ g :: tl.takeWhile G.cont, eC z = eC w) ∨
+          (∃ w ∈ tl.dropWhile G.cont, eC z = eC w) → ∃ w ∈ done ++ g :: tl, eC z = eC w := by
+        intro z hz
+        rcases hz with ⟨w, hw, e⟩ | ⟨w, hw, e⟩ | ⟨w, hw, e⟩
+        · exact ⟨w, by simp [hw], e⟩
+        · refine ⟨w, ?_, e⟩
+          simp only [List.mem_cons] at hw
+          rcases hw with rfl | hw
+          · simp
+          · simp [(List.takeWhile_sublist G.cont).subset hw]
+        · exact ⟨w, by simp [(List.dropWhile_sublist G.cont).subset hw], e⟩
+      have memOf : ∀ (a b : List G), a.map eC = b.map eC → ∀ z ∈ a, ∃ w ∈ b, eC z = eC w := by
+        intro a b hab z hz
+        have : eC z ∈ b.map eC := by rw [← hab]; exact List.mem_map_of_mem hz
+        obtain ⟨w, hw, e⟩ := List.mem_map.mp this
+        exact ⟨w, hw, e.symm⟩
+      simp only [List.mem_append] at hy
+      obtain ⟨w, hw, e⟩ := hsrc y (by
+        rcases hy with (hy | hy) | hy
+        · exact Or.inl (memOf _ _ h1 y hy)
+        · refine Or.inr (Or.inl (memOf _ _ h2 y ?_))
+          split at hy
+          · exact List.mem_reverse.mp hy
+          · exact hy
+        · exact Or.inr (Or.inr (memOf _ _ h3 y hy)))
+      exact ⟨w, hw, hxy.trans e⟩
 
 @[simp] theorem isDI_eC (g : G) : (eC g).isDI = g.isDI := rfl
 @[simp] theorem isDI_setCluster (c : Nat) (g : G) : (setCluster c g).isDI = g.isDI := rfl
@@ -223,7 +278,7 @@ theorem mergeForwardDrop_eC (level : Nat) (g : G) (tl : List G) :
   | nil => rfl
   | cons x tl' =>
     simp only [mergeForwardDrop]
-    rw [List.map_drop, mergeClusters_eC]; rfl
+    rw [List.map_drop, (mergeClusters_eC level [] [g, x] tl').2]; rfl
 
 theorem deleteDI_eC (level n : Nat) (out l : List G) (hn : l.length ≤ n) :
     (deleteDI level n out l).map eC = (out ++ l.filter notDI).map eC := by
@@ -267,7 +322,7 @@ theorem eq_of_eC_eq {a b : G} (h : eC a = eC b) : a = { b with cluster := a.clus
   cases a; cases b; simp [eC] at h ⊢; simp [h]
 
 /-- every slot of `l'` is a slot of `l` up to its cluster -/
-def SubC (l l' : List G) : Prop := ∀ g' ∈ l', ∃ g ∈ l, eC g' = eC g
+abbrev SubC (l l' : List G) : Prop := SubC0 l l'
 
 theorem SubC.of_map_eq {l l' : List G} (h : l'.map eC = l.map eC) : SubC l l' := by
   intro g' hg'
@@ -293,16 +348,14 @@ theorem SubC.trans {a b c : List G} (h1 : SubC a b) (h2 : SubC b c) : SubC a c :
 theorem formClusters_subC (c : Cfg) (l : List G) (s : Scratch) : SubC l (formClusters c l s) := by
   unfold formClusters
   split
-  · exact SubC.of_map_eq (graphemes_flatten_eC _ _ _ _ (Nat.le_refl _))
+  · exact SubC.of_map_eq (by rw [graphemeWalk_eC]; rfl)
   · exact SubC.refl l
 
 theorem reverseGraphemes_subC (level : Nat) (l : List G) : SubC l (reverseGraphemes level l) := by
   unfold reverseGraphemes
-  have h := SubC.of_map_eq (graphemes_flatten_eC (level == 1) level l.length l (Nat.le_refl _))
   intro g hg
-  apply h g
-  simp only [List.mem_flatten, List.mem_reverse] at hg ⊢
-  exact hg
+  have := graphemeWalk_subC (level == 1) level true l.length [] l g (List.mem_reverse.mp hg)
+  simpa using this
 
 theorem ensureNativeDirection_subC (c : Cfg) (l : List G) : SubC l (ensureNativeDirection c l).1 := by
   unfold ensureNativeDirection
@@ -1423,44 +1476,37 @@ theorem takeWhile_eq_self_of_all {α} (p : α → Bool) (l : List α) (h : ∀ x
     have := ih (fun x hx => h x (List.mem_cons_of_mem _ hx))
     simp [h a List.mem_cons_self, this]
 
-theorem graphemes_noCont (merge : Bool) (level n : Nat) (l : List G) (hn : l.length ≤ n)
-    (h : ∀ g ∈ l, g.cont = false) : graphemes merge level n l = l.map fun g => [g] := by
-  induction n generalizing l with
-  | zero =>
-    cases l with
-    | nil => rfl
-    | cons g tl => simp at hn
+theorem graphemeWalk_noCont (merge : Bool) (level : Nat) (rev : Bool) (n : Nat) (done l : List G)
+    (h : ∀ g ∈ l, g.cont = false) : graphemeWalk merge level rev n done l = done ++ l := by
+  induction n generalizing done l with
+  | zero => rfl
   | succ n ih =>
     cases l with
-    | nil => rfl
+    | nil => simp [graphemeWalk]
     | cons g tl =>
       have htl : ∀ x ∈ tl, x.cont = false := fun x hx => h x (List.mem_cons_of_mem _ hx)
       obtain ⟨ht, hd⟩ := takeWhile_eq_nil_of_all_false G.cont tl htl
-      simp only [graphemes, ht, hd, List.map_cons]
-      have : (if merge = true then mergeClusters level [g] tl else [g] ++ tl) = g :: tl := by
+      simp only [graphemeWalk, ht, hd]
+      have : (if merge = true then mergeClusters level done [g] tl else (done, [g] ++ tl)) = (done, g :: tl) := by
         split
         · unfold mergeClusters; simp
         · rfl
       rw [this]
-      simp only [List.length_singleton, List.take_succ_cons, List.take_zero, List.drop_succ_cons, List.drop_zero]
-      rw [ih tl (by simp at hn; omega) htl]
-
-theorem flatten_map_singleton {α} (l : List α) : (l.map fun g => [g]).flatten = l := by
-  induction l with
-  | nil => rfl
-  | cons a t ih => simp [ih]
+      simp only [List.length_singleton, List.take_succ_cons, List.take_zero, List.drop_succ_cons, List.drop_zero,
+        List.reverse_singleton, ite_self]
+      rw [ih _ tl htl]; simp
 
 theorem formClusters_noCont (c : Cfg) (l : List G) (s : Scratch) (h : ∀ g ∈ l, g.cont = false) :
     formClusters c l s = l := by
   unfold formClusters
   split
-  · rw [graphemes_noCont _ _ _ _ (Nat.le_refl _) h, flatten_map_singleton]
+  · rw [graphemeWalk_noCont _ _ _ _ _ _ h]; rfl
   · rfl
 
 theorem reverseGraphemes_noCont (level : Nat) (l : List G) (h : ∀ g ∈ l, g.cont = false) :
     reverseGraphemes level l = l.reverse := by
   unfold reverseGraphemes
-  rw [graphemes_noCont _ _ _ _ (Nat.le_refl _) h, ← List.map_reverse, flatten_map_singleton]
+  rw [graphemeWalk_noCont _ _ _ _ _ _ h]; rfl
 
 theorem mapAccum_found (u : Ucd) (f : Font) (l : List G) (s : Scratch)
     (h : ∀ g ∈ l, (nominal f g.gid).isSome = true) :
@@ -2333,7 +2379,7 @@ theorem hideDI_filter (u : Ucd) (f : Font) (c : Cfg) (s : Scratch) (l : List G)
 theorem formClusters_eC (c : Cfg) (l : List G) (s : Scratch) : (formClusters c l s).map eC = l.map eC := by
   unfold formClusters
   split
-  · exact graphemes_flatten_eC _ _ _ _ (Nat.le_refl _)
+  · rw [graphemeWalk_eC]; rfl
   · rfl
 
 /-- left-to-right, script not right-to-left, no dotted circle: `shapeCore` is the slot-wise chain
